@@ -28,6 +28,9 @@ pub fn pool() -> Vec<Op> {
         Op::del(1, ts_min(5, 0, A)),
         Op::del(2, ts_min(10, 0, B)),
         Op::ins(1, ts_min(20, 0, B)),
+        // a slow but timely operation of A: older than what both sources will have seen of A
+        // when it arrives, still inside the forgiveness window (added after C08-d)
+        Op::ins(2, ts_min(60, 0, A)),
         Op::ins(2, ts_min(70, 0, A)),
         Op::ins(2, ts_min(75, 0, A)),
         Op::ins(1, ts_min(80, 0, B)),
@@ -199,6 +202,35 @@ fn dfs(
     purges: usize,
     st: &mut Stats,
 ) {
+    // "afterwards still rejects any operation from the deleting node that is not newer than
+    // the purged delete": not only right after the purge (check_purge) but in every later
+    // state of the history
+    let mut purged_deletes: Vec<HLCTimestamp> = Vec::new();
+    {
+        let mut replay = Set2::default();
+        for e in trail.iter() {
+            match e {
+                Ev::Op(o, s) => {
+                    apply(&mut replay, *s, *o);
+                },
+                Ev::Purge => purged_deletes.extend(replay.purge_old_deletes().into_iter().map(|(_, t)| t)),
+            }
+        }
+    }
+    for td in &purged_deletes {
+        for pt in cx.pool.iter().map(|o| o.ts).filter(|t| t.node() == td.node() && t <= td) {
+            for key in KEYS {
+                st.inc("later_probes");
+                if set.will_apply(key, pt) {
+                    st.violation(
+                        "stale-operation-accepted-later-after-purge",
+                        || format!("a delete at {td} was purged earlier in this history; now an operation on key {key} at {pt} from the same node would be applied"),
+                        || J::obj().set("events", trail_json(trail)).set("probe_key", key).set("probe_stamp", pt.to_string()),
+                    );
+                }
+            }
+        }
+    }
     // Every reached state: evaluate a purge on a copy.
     let purged = check_purge(set, cx.pool, trail, st);
     st.seen("states", fp128(&set.verif_snapshot()));
